@@ -1,5 +1,5 @@
 import Driver.Proto
-import Uft.Model.Report
+import Uft.Model.ReportExt
 /- C08 driver (model `Report`).
    func <maxStack> <avgMode 0|1|2> <-s string|-> | <id:size …> | <task 0 records> | <task 1 records> …
         -> "rows <key,call,size,tsum,tavg,tmin,tmax,ssum,savg,smin,smax>;…"   (sorted, as printed)
@@ -10,6 +10,12 @@ import Uft.Model.Report
    diff <maxStack base>:<maxStack pair> <avgMode> <-s string|-> <column> <abs 0|1> | <id:size …> | base streams … | # | pair streams …
         -> "drows <base row>/<pair row>;…"
    nodes <maxStack> | | streams…   -> unsorted raw node table (name order), sum/rec unreduced
+   funcx <maxStack> <avgMode> <-s string|-> <byName 0|1> | <addr:nameid:sym 0|1:size …> | streams…
+        -> rows of the name-keyed report (key = name id); byName 1 = repaired recursion test (F-C08-SAMENAME)
+   diffx <maxStack base>:<maxStack pair> <avgMode> <-s|-> <column> <abs 0|1> <percent 0|1> <byName 0|1>
+         | <addr:nameid:sym:size …> | base streams … | # | pair streams …      -> drows, keys = name ids
+   taskx <maxStack> <-s string|-> <tidFixed 0|1> | <tid of task 0> <tid of task 1> … | streams…
+        -> rows, key = tid; tidFixed 1 = numeric tid order (repair of F-C08-TIDSORT)
    record token: <E|X|L|V>:<time>:<depth>:<function id>
 -/
 namespace Driver.C08
@@ -60,6 +66,19 @@ def showRow (r : Row) : String :=
   s!"{r.key},{r.call},{r.size},{r.tsum},{r.tavg},{r.tmin},{r.tmax},{r.ssum},{r.savg},{r.smin},{r.smax}"
 
 def optKeys (s : String) : Option String := if s = "-" then none else some s
+
+/-- `<addr>:<name id>:<sym 0|1>:<size>` … -> the keying and the symbol sizes; an address that is
+    not listed is unnamed (its own name, no symbol) -/
+def parseTable (ws : List String) (byName : Bool) : Keying × (Nat → Option Nat) :=
+  let ents : List (Nat × Nat × Bool × Nat) := ws.filterMap fun w =>
+    match (w.splitOn ":").map String.toNat? with
+    | [some a, some n, some s, some z] => some (a, n, s == 1, z)
+    | _ => none
+  let look (a : Nat) : Option (Nat × Bool × Nat) := (ents.find? (fun e => e.1 == a)).map (·.2)
+  ({ name := fun a => match look a with | some e => e.1 | none => 1000000000 + a,
+     sym := fun a => match look a with | some e => e.2.1 | none => false,
+     byName := byName },
+   fun a => match look a with | some e => if e.2.1 then some e.2.2 else none | none => none)
 
 def funcRows (maxStack : Nat) (sizes : Nat → Nat) (streams : List (List Rec)) : List Row :=
   nameRows (reportNodes false maxStack streams) sizes (keysOf streams)
@@ -115,6 +134,40 @@ def handle (ws : List String) : String :=
       "nodes " ++ ";".intercalate (((keysOf streams).filter (fun k => (ns k).call > 0)).map fun k =>
         let n := ns k
         s!"{k},{n.call},{n.total.sum},{n.total.recs},{n.total.min},{n.total.max},{n.self.sum},{n.self.min},{n.self.max}")
+    | _, _ => "bad-op"
+  | ["funcx", ms, avg, sk, bn] :: tab :: secs =>
+    match ms.toNat?, avg.toNat?, parseStreams secs with
+    | some ms, some avg, some streams =>
+      match setupSortG true (convertSortKeys (optKeys sk) avg) with
+      | none => "invalid-sort-key"
+      | some chain =>
+        let (ky, sz) := parseTable tab (bn = "1")
+        match sortByChainG chain (keyedRows ky sz ms streams (keysOf streams)) with
+        | none => "hang"
+        | some rows => "rows " ++ ";".intercalate (rows.map showRow)
+    | _, _, _ => "bad-op"
+  | ["diffx", ms, avg, sk, col, ab, pc, bn] :: tab :: secs =>
+    let bsecs := secs.takeWhile (· ≠ ["#"])
+    let psecs := (secs.dropWhile (· ≠ ["#"])).drop 1
+    let msl := (ms.splitOn ":").map String.toNat?
+    match msl, avg.toNat?, col.toNat?, parseStreams bsecs, parseStreams psecs with
+    | [some ms, some msp], some avg, some col, some bs, some ps =>
+      match setupDiff (convertSortKeys (optKeys sk) avg) with
+      | none => "invalid-sort-key"
+      | some keys =>
+        let (ky, sz) := parseTable tab (bn = "1")
+        let rows := diffByKeysP (dedupKeys keys) col (ab = "1") (pc = "1")
+          (keyedRows ky sz ms bs (keysOf bs)) (keyedRows ky sz msp ps (keysOf ps))
+        "drows " ++ ";".intercalate (rows.map fun d => showRow d.base ++ "/" ++ showRow d.pair)
+    | _, _, _, _, _ => "bad-op"
+  | ["taskx", ms, sk, tf] :: tidws :: secs =>
+    match ms.toNat?, parseStreams secs with
+    | some ms, some streams =>
+      let tids := tidws.filterMap String.toNat?
+      let names := ((optKeys sk).getD "total").splitOn ","
+      match sortTaskRows (tf = "1") names (taskRows tids (reportNodes true ms streams)) with
+      | none => "invalid-sort-key"
+      | some rows => "rows " ++ ";".intercalate (rows.map showRow)
     | _, _ => "bad-op"
   | _ => "bad-op"
 
